@@ -6,7 +6,8 @@ package main
 // every observation must be explained by, and must confirm, the extracted mode of some field).
 //
 //   c18-random  table=<json> n=<cases per DeepCopy method> seed=<s> depth=<d>
-//   c18-witness table=<json>                     hand-written minimal value per known exception
+//   c18-witness table=<json>                     pinned inputs: the former exceptions' witnesses (must pass now)
+//   c18-caveat  table=<json>                     dynamic types outside the IR's universe (informational)
 //   c18-case    table=<json> root=<T> seed= idx= depth=    one case, with JSON dumps (replay)
 
 import (
@@ -25,6 +26,7 @@ import (
 func init() {
 	register("c18-random", c18Random)
 	register("c18-witness", c18Witness)
+	register("c18-caveat", c18Caveat)
 	register("c18-case", c18Case)
 }
 
@@ -311,7 +313,9 @@ func c18Addr[T any](x T) reflect.Value {
 	return p.Elem()
 }
 
-// c18Witnesses: the minimal values of lean/Cog/Props/C18.lean (`witness`), built on the real types:
+// c18Witnesses: pinned inputs.  The first 14 are the former exceptions' witnesses of
+// lean/Cog/Props/C18.lean (`prePayload`): they failed before the fix commits b4532a0, ea8a40d,
+// 1572d8b, 71b1811 and MUST PASS now (a relapse is a violation).  Built on the real types:
 // the struct with only the offending field populated; an `any` holds a []any, as CUE list
 // defaults and JSON Schema array defaults do.
 func c18Witnesses() []c18W {
@@ -331,7 +335,37 @@ func c18Witnesses() []c18W {
 		{"AssignmentValue.Constant", "AssignmentValue", c18Addr(ast.AssignmentValue{Constant: payload()})},
 		{"AssignmentConstraint.Parameter", "AssignmentConstraint", c18Addr(ast.AssignmentConstraint{Parameter: payload()})},
 		{"TypedConstant.Value", "TypedConstant", c18Addr(ast.TypedConstant{Value: payload()})},
+		// deeper pinned inputs (same fields, the other dynamic types of the universe)
+		{"Type.Default/map-of-lists", "Type", c18Addr(ast.Type{Default: map[string]any{"k": []any{"a", map[string]any{"z": int64(1)}}}})},
+		{"Type.Hints/disjunction", "Type", c18Addr(ast.Type{Hints: ast.JenniesHints{"disjunction_of_refs": ast.DisjunctionType{
+			Branches: ast.Types{ast.NewRef("p", "A"), ast.NewRef("p", "B")}, Discriminator: "kind", DiscriminatorMapping: map[string]string{"a": "A", "b": "B"}}}})},
+		{"Type.Hints/type", "Type", c18Addr(ast.Type{Hints: ast.JenniesHints{"t": ast.NewArray(ast.String(ast.Default(payload())))}})},
+		{"Option.Default/list", "Option", c18Addr(ast.Option{Default: &ast.OptionDefault{ArgsValues: []any{[]any{"a"}, map[string]any{"k": "v"}}}})},
 	}
+}
+
+// c18Caveats: dynamic types cog never stores in an `any` field and deepCopyValue does not rebuild:
+// they stay shared (theorem C18_universe_needed).  Informational rows, expected to FAIL.
+func c18Caveats() []c18W {
+	return []c18W{
+		{"Type.Default/[]string", "Type", c18Addr(ast.Type{Default: []string{"a"}})},
+		{"Type.Default/map[string]string", "Type", c18Addr(ast.Type{Default: map[string]string{"k": "v"}})},
+		{"Type.Hints/*Type", "Type", c18Addr(ast.Type{Hints: ast.JenniesHints{"h": &ast.Type{Kind: ast.KindScalar}}})},
+	}
+}
+
+func c18Caveat(args map[string]string, out *bufio.Writer) error {
+	t, err := c18LoadTable(args)
+	if err != nil {
+		return err
+	}
+	cov := c18NewCov()
+	for _, w := range c18Caveats() {
+		before := c18JSON(w.value)
+		_, verdicts, _ := c18Run(t, w.root, w.value, cov, false)
+		c18Emit(out, "c18 caveat="+w.label, before, verdicts)
+	}
+	return nil
 }
 
 func c18Witness(args map[string]string, out *bufio.Writer) error {
